@@ -378,7 +378,7 @@ Definition same_seq (ordered : bool) (n : nat) (a b : list nat) : bool :=
   if ordered then list_eqb a b
   else (length a =? length b) && forallb (fun i => count_id i a =? count_id i b) (seq 0 n).
 
-Inductive runclass := ROk | RCanceled | RErr | RHang.
+Inductive runclass := ROk | RCanceled | RNoAmmo | RErr | RHang.
 Definition is_rok (r : runclass) : bool := match r with ROk => true | _ => false end.
 Definition is_rok_or_canceled (r : runclass) : bool :=
   match r with ROk | RCanceled => true | _ => false end.
